@@ -203,7 +203,7 @@ func runCase(r *ev.Run, c *caseT, hs *hasher, st *memberStats) {
 		var nodes []pnode
 		var raw any
 		if p, msg := ev.Guard(func() { nodes, raw, err = h.prove(&qf) }); p || err != nil {
-			r.Violate(fmt.Sprintf("prove-fails %s %s", cfg, kind), detail(q, map[string]any{"err": fmt.Sprint(err), "panic": msg}))
+			r.Violate(fmt.Sprintf("prove-fails %s %s", c.im.name, kind), detail(q, map[string]any{"err": fmt.Sprint(err), "panic": msg}))
 			continue
 		}
 		r.Add("proofs", 1)
@@ -219,7 +219,7 @@ func runCase(r *ev.Run, c *caseT, hs *hasher, st *memberStats) {
 		// (1) independent verifier
 		vd := indVerify(hs, root, q, c.height, nodes)
 		if !vd.OK || !vd.Val.Equal(&truth) {
-			r.Violate(fmt.Sprintf("proof-does-not-establish-the-key's-value (independent verifier) %s %s", cfg, kind),
+			r.Violate(fmt.Sprintf("proof-does-not-establish-the-key's-value (independent verifier) %s %s", c.im.name, kind),
 				detail(q, map[string]any{"truth": truth.String(), "verdict": vd, "nodes": nodes, "root": root.String()}))
 			continue
 		}
